@@ -387,6 +387,44 @@ theorem F23_as_found : ∃ s, Reachable s ∧ s.sh.logical = 32 ∧
 theorem F23_fixed : runT 1 {} .idle (f23Ops ++ [.resume, .resume, .resume, .resume]) =
     some ({ c := 31, sbit := false, side := 0, logical := 31 }, .idle) := by decide
 
+/-! ### F43: the suspension a configuring call takes on an INACTIVE object (`_dispatch_lane_try_inactive_suspend`)
+
+`dispatch_set_target_queue` and the `dispatch_source_set_*_handler` functions suspend an inactive object for the duration of their
+work with a plain addition of one interval to `dq_state`, and give the suspension back with `_dispatch_lane_resume`. The count is
+the topmost field of the word. -/
+
+/-- as found: `new_state = old_state + DISPATCH_QUEUE_SUSPEND_INTERVAL` - with the inline field full the addition carries out of
+    the word and the field reads 0 -/
+def rawInactiveSuspend (sh : Sh) : Sh := { sh with c := (sh.c + 1) % (MAXC + 1), logical := sh.logical + 1 }
+
+/-- as repaired: a full inline field (like a side count in use) is refused - the documented client crash; otherwise it is the
+    model's ordinary fast-path `suspend` -/
+def inactiveSuspend (sh : Sh) : Option Sh :=
+  if sh.c < MAXC ∧ !sh.sbit then some { sh with c := sh.c + 1, logical := sh.logical + 1 } else none
+
+theorem f43_state : runT 1 {} .idle (List.replicate 63 .suspend) = some ({ c := 63, logical := 63 }, .idle) := by decide
+
+/-- **F43 as found**: 63 suspensions of an inactive object are reachable through the inline field alone; the configuring call's own
+    suspension then leaves a word whose count reads 0 with 64 suspensions outstanding - the object is no longer suspended - and the
+    call's give-back and the 63 balancing resumes are over-resumes -/
+theorem F43_as_found : ∃ s, Reachable s ∧ s.sh.logical = 63 ∧
+    (rawInactiveSuspend s.sh).c = 0 ∧ (rawInactiveSuspend s.sh).sbit = false ∧ (rawInactiveSuspend s.sh).logical = 64 := by
+  refine ⟨_, runT_reachable 1 (List.replicate 63 .suspend) { sh := {}, pcs := fun _ => .idle } _ _ .init f43_state, rfl, by decide⟩
+
+/-- **F43 repaired**: whenever the configuring call's suspension is taken at all it keeps the count exact (inline field + side
+    count = outstanding suspensions), and at the full inline field it is refused -/
+theorem inactive_suspend_exact (sh sh' : Sh) (h : inactiveSuspend sh = some sh') (he : sh.c + sh.side = sh.logical) :
+    sh'.c + sh'.side = sh'.logical ∧ sh'.c ≤ MAXC ∧ 0 < sh'.c := by
+  unfold inactiveSuspend at h
+  by_cases hc : sh.c < MAXC ∧ (!sh.sbit) = true
+  · rw [if_pos hc] at h; cases h
+    have := hc.1
+    unfold MAXC at *
+    refine ⟨by dsimp only; omega, by dsimp only; omega, by dsimp only; omega⟩
+  · rw [if_neg hc] at h; cases h
+
+theorem inactive_suspend_refuses_full : inactiveSuspend { c := 63, logical := 63 } = none := by decide
+
 end SuspendP
 
 section audit
